@@ -65,6 +65,12 @@ def shapes():
     S['rel-term'] = lambda f, l: [[f.rel(list(b'inputs'), l.ident(1))]]
     S['rel-ref'] = lambda f, l: [[f.rel(list(b'inputs'), None, list(b'r1'))]]
     S['rel-term-ref'] = lambda f, l: [[f.rel(list(b'inputs'), list(b'air'), list(b'r1'))]]
+    # tag names that begin with (or contain) a keyword: the lexer must take the longest identifier
+    from props.zenc_common import ID_REST
+    for kw in (b'and', b'or', b'not', b'true', b'false'):
+        S['kw-%s-has' % kw.decode()] = lambda f, l, kw=kw: [[f.has([list(kw) + [l.byte(list(ID_REST))]])]]
+        S['kw-%s-and' % kw.decode()] = lambda f, l, kw=kw: [[f.has([name(f.ex, l, 1)]), f.has([list(kw) + [l.byte(list(ID_REST))]])]]
+        S['kw-%s-path' % kw.decode()] = lambda f, l, kw=kw: [[f.has([name(f.ex, l, 1), list(kw) + [l.byte(list(ID_REST))]]), f.has([name(f.ex, l, 1)])]]
     A = lambda f, l: f.has([name(f.ex, l, 1)])
     P2 = lambda f, l: f.has([name(f.ex, l, 1), name(f.ex, l, 1)])
     C = lambda f, l: f.cmp([name(f.ex, l, 1)], 0, f.h.num(1.0))
